@@ -129,24 +129,58 @@ def c_pre_post(c, used, has_if, k, arr):
 
 
 @contract("rand_obj.do_pre_post_randomize", ["C17"], ["vsc.rand_obj._randobj.__call__"],
-          lambda tier, seed: [(a, b) for a in (False, True) for b in (False, True)])
-def c_facade_forward(c, has_pre, has_post):
+          lambda tier, seed: [(a, b, w) for a in (False, True) for b in (False, True) for w in ("same", "derived", "base_and_override", "instance_level")])
+def c_facade_forward(c, has_pre, has_post, where):
     import vsc
     log = []
 
     class B(object):
         def __init__(self):
             self.a = vsc.rand_bit_t(4)
+    hooks = {}
     if has_pre:
-        B.pre_randomize = lambda self: log.append("pre")
+        hooks["pre_randomize"] = lambda self: log.append("pre")
     if has_post:
-        B.post_randomize = lambda self: log.append("post")
-    C = vsc.randobj(B)
+        hooks["post_randomize"] = lambda self: log.append("post")
+    if where == "same":
+        for k, v in hooks.items():
+            setattr(B, k, v)
+        C = vsc.randobj(B)
+    elif where == "derived":
+        # the hooks are defined only by a derived randobj class; the base (decorated first) has none
+        Base = vsc.randobj(B)
+
+        class D(Base):
+            def __init__(self):
+                super().__init__()
+                self.b = vsc.rand_bit_t(4)
+        for k, v in hooks.items():
+            setattr(D, k, v)
+        C = vsc.randobj(D)
+    elif where == "base_and_override":
+        B.pre_randomize = lambda self: log.append("base-pre")
+        B.post_randomize = lambda self: log.append("base-post")
+        Base = vsc.randobj(B)
+
+        class D(Base):
+            def __init__(self):
+                super().__init__()
+        for k, v in hooks.items():
+            setattr(D, k, v)
+        C = vsc.randobj(D)
+    else:
+        C = vsc.randobj(B)
     o = C()
+    if where == "instance_level":
+        import types
+        for k, v in hooks.items():
+            object.__setattr__(o, k, types.MethodType(v, o))
     o.do_pre_randomize()
     o.do_post_randomize()
-    c.prove("the facade forwards each callback exactly once iff the user method exists",
-            log == (["pre"] if has_pre else []) + (["post"] if has_post else []))
+    exp = (["pre"] if has_pre else (["base-pre"] if where == "base_and_override" else [])) + \
+          (["post"] if has_post else (["base-post"] if where == "base_and_override" else []))
+    c.prove("the facade forwards each callback exactly once iff the object has the user method (own class, derived class, "
+            "override, or instance attribute)", log == exp, info="%s got %r want %r" % (where, log, exp))
     c.prove("the composite model's rand_if is the facade object", o.get_model().rand_if is o)
 
 
